@@ -132,11 +132,12 @@ def expected(seq):
     return deliveries, replies
 
 
-def run_stream(devs, budgets, seq=None, cuts=None, mode="stepwise"):
+def run_stream(devs, budgets, seq=None, cuts=None, mode="stepwise", stale=None):
     box = {}
     stream = b"".join(F(k, s) for k, s in seq)
 
     def driver(s):
+        s.frozen = True  # reaching SELECTED is set-up
         ep = hh.Endpoint(active=False)
         got = []
         ep.protocol.events.message_received += lambda d: got.append((d["message"].header.system, d["message"].header.stream,
@@ -145,6 +146,23 @@ def run_stream(devs, budgets, seq=None, cuts=None, mode="stepwise"):
             box["harness"] = "not selected"
             return
         ep.pump()
+        if stale is not None:
+            # an earlier connection of the same protocol object ended inside a frame: `stale` bytes of a 24-byte data frame were received
+            ep.conn.peer_send(e37.data(9, 1, False, 0x333, e5.enc(("B", bytes(range(8)))))[:stale])
+            s.settle()
+            ep.conn.peer_close()
+            s.settle()
+            ep.reset_wire()
+            ep.conn.peer_connect()
+            s.settle()
+            ep.conn.peer_send(e37.control(e37.SELECT_REQ, 0x7002))
+            s.settle()
+            ep.pump()
+            if ep.state() != "CONNECTED_SELECTED":
+                box["not_selected_again"] = ep.state()
+                box["got"], box["replies"], box["state"], box["rxbuf"] = got, [], ep.state(), 0
+                return
+        s.frozen = False
         segs = gen.split_at(stream, cuts)
         if mode == "stepwise":
             for seg in segs:
@@ -162,7 +180,12 @@ def run_stream(devs, budgets, seq=None, cuts=None, mode="stepwise"):
 
     sched = vrt.run(driver, devs, budgets, max_steps=400000, max_time=1e6, line_points=(mode != "stepwise"))
     res = {"trace": sched.trace, "v": []}
-    case = {"seq": seq, "cuts": cuts, "mode": mode, "part": "stream"}
+    case = {"seq": seq, "cuts": cuts, "mode": mode, "part": "stream", "stale": stale}
+    if box.get("not_selected_again"):
+        res["v"].append((f"C04|connection-after-a-partial-frame-does-not-select|stale={'length' if stale < 4 else ('header' if stale < 14 else 'body')}",
+                         {"case": case, "state": box["not_selected_again"]}))
+        res["obs"] = "not selected again"
+        return res
     if sched.harness_failure or sched.driver_exception or box.get("harness"):
         res["harness"] = (sched.harness_failure or sched.driver_exception or box.get("harness"))[-1000:]
         res["obs"] = None
@@ -345,7 +368,7 @@ def check_case(case):
         return check_frame(case["f"])
     if case["kind"] == "outbound":
         return check_outbound(case)
-    r = run_stream({}, {}, seq=[tuple(x) for x in case["seq"]], cuts=case["cuts"], mode="stepwise")
+    r = run_stream({}, {}, seq=[tuple(x) for x in case["seq"]], cuts=case["cuts"], mode="stepwise", stale=case.get("stale"))
     v = r["v"]
     if r.get("harness"):
         v = v + [("HARNESS|c04", {"case": case, "trace": r["harness"]})]
@@ -363,6 +386,12 @@ def stream_cases(thorough):
             continue
         for cuts in gen.cut_sets(len(stream), maxc):
             yield {"kind": "stream", "seq": seq, "cuts": cuts}
+    # a previous connection of the same object ended after `stale` bytes of a frame: the stream of the next connection is reassembled alone
+    for seq in (SEQS[3], SEQS[9]):
+        stream = b"".join(F(k, s) for k, s in seq)
+        for stale in (1, 3, 4, 5, 13, 14, 15, 23):
+            for cuts in ([], [2], [len(stream) // 2], list(range(1, len(stream)))):
+                yield {"kind": "stream", "seq": seq, "cuts": cuts, "stale": stale}
 
 
 def run(ctx):
@@ -450,7 +479,7 @@ def replay(ctx, detail):
         if case.get("mode") != "stepwise":
             hh.trace_region(REGION)
         devs = {int(k): v for k, v in case.get("devs", {}).items()}
-        r = run_stream(devs, case.get("budgets", {}), seq=[tuple(x) for x in case["seq"]], cuts=case["cuts"], mode=case["mode"])
+        r = run_stream(devs, case.get("budgets", {}), seq=[tuple(x) for x in case["seq"]], cuts=case["cuts"], mode=case["mode"], stale=case.get("stale"))
         print("replayed:", r.get("obs"))
         res = r["v"]
     else:
